@@ -18,6 +18,8 @@ EXPLANATION = (
 NOT_DECIDED = ("truth-value preservation of the simplification / De Morgan / replacement "
                "algorithms for all trees (runtime rewriting)")
 
+TECHNIQUE = ('bit-sliced abstract interpretation of LogicStack (exact for all stack words), CFG walk under truth assignments for token arity, switch/enum table agreement, compile-time witness for the character table, visitor overload-set comparison')
+
 UNITS = [
     "src/orange/OrangeParams.cc",
     "src/orange/detail/UnitInserter.cc",
